@@ -348,24 +348,52 @@ func runC14(w *World, c *Check) {
 			continue
 		}
 		fa := NewFuncAn(w, fn)
-		v1 := fa.MatchGuard(EqPass("1", ver))
-		nat := fa.MatchGuard(TruePass(`keytab\.isNativeEndianLittle\(\)`))
-		// LittleEndian is selected only under both
-		okSel := len(v1) > 0 && len(nat) > 0
-		var le []ssa.Instruction
-		for _, b := range fn.Blocks {
-			for _, in := range b.Instrs {
-				if v, ok := in.(ssa.Value); ok && strings.Contains(fa.R.R(v), "encoding/binary.LittleEndian") {
-					if _, isLoad := in.(*ssa.UnOp); isLoad {
-						le = append(le, in)
+		// the selection, here or in a helper introduced later that this function calls (with the
+		// helper's parameters rendered as this function's arguments)
+		var endianSel func(a *FuncAn, depth int) (found, ok bool)
+		endianSel = func(a *FuncAn, depth int) (bool, bool) {
+			v1, _ := a.matchGuardsRaw([]rawPat{{"1", ver, EqPass("1", ver), true}}, 1)
+			nat, _ := a.matchGuardsRaw([]rawPat{{`keytab\.isNativeEndianLittle\(\)`, "", TruePass(`keytab\.isNativeEndianLittle\(\)`), true}}, 1)
+			var le []ssa.Instruction
+			for _, b := range a.Fn.Blocks {
+				for _, in := range b.Instrs {
+					if v, isVal := in.(ssa.Value); isVal && strings.Contains(a.R.R(v), "encoding/binary.LittleEndian") {
+						if _, isLoad := in.(*ssa.UnOp); isLoad {
+							le = append(le, in)
+						}
 					}
 				}
 			}
-		}
-		for _, in := range le {
-			if fa.PathToInstrAvoiding(v1, in) != nil || fa.PathToInstrAvoiding(nat, in) != nil {
-				okSel = false
+			if len(le) > 0 {
+				ok := len(v1) > 0 && len(nat) > 0
+				for _, in := range le {
+					if a.PathToInstrAvoiding(v1, in) != nil || a.PathToInstrAvoiding(nat, in) != nil {
+						ok = false
+					}
+				}
+				return true, ok
 			}
+			if depth < 2 {
+				for _, b := range a.Fn.Blocks {
+					for _, in := range b.Instrs {
+						if call, isCall := in.(*ssa.Call); isCall {
+							if g := call.Call.StaticCallee(); g != nil && newHelper(g) {
+								sub := NewFuncAnCtx(a.W, g, a.CallArgs(call))
+								sub.R.inlineDepth = a.R.inlineDepth + 1
+								if f, ok := endianSel(sub, depth+1); f {
+									return true, ok
+								}
+							}
+						}
+					}
+				}
+			}
+			return false, false
+		}
+		found, okSel := endianSel(fa, 0)
+		le := []int{}
+		if found {
+			le = append(le, 1)
 		}
 		c.Decide(okSel && len(le) > 0, "C14.endian", fk, "byte-order", w.Pos(fn.Pos()), "little-endian is used only for version 1 on a little-endian host, big-endian otherwise", "LittleEndian is selected outside `version == 1 && isNativeEndianLittle()`")
 	}
@@ -374,7 +402,10 @@ func runC14(w *World, c *Check) {
 	if fn := w.Func("keytab.(*Keytab).Unmarshal"); fn != nil {
 		fa := NewFuncAn(w, fn)
 		neg := fa.MatchGuard(GuardPat{Kind: "gt", X: "0", Y: `\$L\d+|keytab\.readInt32\(b, [^\[]*\)#0`, PassWhen: true}) // edge on which l < 0
-		princ := fa.Calls(`keytab\.parsePrincipal`)
+		var princ []ssa.CallInstruction // the entry parser, or the call of the helper that holds it
+		for _, dc := range fa.CallsDeep(`keytab\.parsePrincipal`) {
+			princ = append(princ, dc.site)
+		}
 		okHole := len(neg) > 0 && len(princ) == 1
 		if okHole {
 			hdr := loopHeaderOf(princ[0].Block())
@@ -436,16 +467,23 @@ func runC14(w *World, c *Check) {
 		c.Decide(okHole, "C14.holes", FuncKey(fn), "negative-length-skipped", w.Pos(fn.Pos()), "a record with a negative length (deleted entry) is skipped over, not parsed", "the entry parser is reachable with a negative record length")
 		zero := fa.MatchGuard(EqPass("0", `\$L\d+|keytab\.readInt32\(b, [^\[]*\)#0`))
 		c.Decide(len(zero) > 0, "C14.holes", FuncKey(fn), "zero-length-stops", w.Pos(fn.Pos()), "a zero record length ends the file", "no test for a zero record length")
-		// kvno defaulting
-		st := fa.storesTo(`.*\.KVNO`)
+		// kvno defaulting (in this function or in the helper that now parses an entry)
+		kfa := fa
+		for _, a := range fa.withNewHelpers() {
+			if len(a.storesTo(`.*\.KVNO`)) > 0 {
+				kfa = a
+				break
+			}
+		}
+		st := kfa.storesTo(`.*\.KVNO`)
 		var from8 *ssa.Store
 		for _, s := range st {
-			if strings.HasSuffix(fa.R.R(s.Val), ".KVNO8") {
+			if strings.HasSuffix(kfa.R.R(s.Val), ".KVNO8") {
 				from8 = s
 			}
 		}
-		z := fa.MatchGuard(EqPass("0", `.*\.KVNO`))
-		okK := from8 != nil && len(z) > 0 && fa.PathToInstrAvoiding(z, from8) == nil
+		z := kfa.MatchGuard(EqPass("0", `.*\.KVNO`))
+		okK := from8 != nil && len(z) > 0 && kfa.PathToInstrAvoiding(z, from8) == nil
 		c.Decide(okK, "C14.kvno", FuncKey(fn), "kvno8-fallback", w.Pos(fn.Pos()), "KVNO is set from the 8-bit field only when the 32-bit field is absent or zero", "the fallback store is not guarded by KVNO == 0")
 		c.Decide(len(st) >= 2, "C14.kvno", FuncKey(fn), "kvno32-read", w.Pos(fn.Pos()), "the trailing 32-bit kvno, when present, is stored into KVNO", fmt.Sprintf("%d stores to KVNO", len(st)))
 	}
